@@ -18,6 +18,8 @@ package main
 // A token L<first id>,<prev>,<count>,<bits> stands for a run of <count> headers ingested back to back: ids
 // first..first+count-1, each on top of the previous one (the first on <prev>), version 1, merkle id+100000,
 // timestamp 1600000000+i, nonce i  (long runs: a hanging / held channel must not stop ingestion at any queue size).
+// A token X is a RESTART of the process on the same database file (Stack.Reopen: new services, new Notifier, the
+// channels registered again as cmd/main.go does; webhooks are NOT registered again - they are rows of the database).
 // beh additionally: hang (held on a gate that is NEVER opened before the final snapshot), late (webhook target
 // flushes its 200 status first and writes the body later; the harness paces ingestion by the deliveries).
 // n only steers the schedule the MODEL is run with (the implementation's schedule is the Go runtime's).
@@ -239,11 +241,12 @@ type c11Fault struct {
 }
 
 type c11Case struct {
-	Chans  []c11Spec
-	N      int
-	H      *History
-	Faults map[int]c11Fault // by submission index
-	Hist   string           // the history part as written (kept when it contains L tokens)
+	Chans    []c11Spec
+	N        int
+	H        *History
+	Faults   map[int]c11Fault // by submission index
+	Hist     string           // the history part as written (kept when it contains L or X tokens)
+	Restarts map[int]int      // submission index -> number of restarts right before it
 }
 
 // c11Expand replaces L tokens by the submissions they stand for.
@@ -282,7 +285,7 @@ func c11Parse(line string) (*c11Case, error) {
 		return nil, fmt.Errorf("no '|' in %q", line)
 	}
 	head, hist := line[:bar], line[bar+1:]
-	k := &c11Case{Faults: map[int]c11Fault{}}
+	k := &c11Case{Faults: map[int]c11Fault{}, Restarts: map[int]int{}}
 	for _, part := range strings.Split(head, "/") {
 		switch {
 		case strings.HasPrefix(part, "c="):
@@ -315,6 +318,11 @@ func c11Parse(line string) (*c11Case, error) {
 		}
 		if strings.HasPrefix(tok, "g=") || strings.HasPrefix(tok, "f=") {
 			toks = append(toks, tok)
+			continue
+		}
+		if tok == "X" {
+			k.Restarts[idx]++
+			k.Hist = hist
 			continue
 		}
 		if strings.HasPrefix(tok, "L") {
@@ -391,6 +399,7 @@ type c11Env struct {
 	watchdog  time.Duration
 	baseBumps int
 	ncase     int
+	restarts  int
 	wantMiss  int
 	loose     bool // goroutine counting abandoned for the rest of the run
 	held      int  // deliveries parked at the gate when ingestion had finished, over all cases
@@ -503,10 +512,8 @@ func (e *c11Env) run(k *c11Case) (string, error) {
 	for _, sp := range k.Chans {
 		r := &c11Rec{spec: sp, mat: m, gate: gate, hang: hang, parked: &parked}
 		switch sp.Kind {
-		case "R":
-			nt.AddChannel(c11Raw{r})
-		case "W":
-			nt.AddChannel(notification.NewWebsocketChannel(e.s.Log, c11Pub{r}, e.s.Cfg.Websocket))
+		case "R", "W":
+			c11Attach(e, nt, r)
 		case "H", "C":
 			noisy = true
 			if err := c11AddRealChannel(e, nt, r); err != nil {
@@ -559,12 +566,50 @@ func (e *c11Env) run(k *c11Case) (string, error) {
 		baseline = e.baseline()
 	}
 	steps := make([]string, len(k.H.Subs))
+	var restartErr error
+	// restart = what a process exit + start does: deliveries in flight are given (bounded) time to finish first,
+	// then the database is closed and re-opened, services and Notifier are new, channels are registered again
+	restart := func(stored int) error {
+		deadline := time.Now().Add(2 * time.Second)
+		for time.Now().Before(deadline) {
+			ok := true
+			for _, r := range recs {
+				if !c11Held(r.spec.Beh) && r.count() < stored {
+					ok = false
+				}
+			}
+			if ok {
+				break
+			}
+			time.Sleep(time.Millisecond)
+		}
+		time.Sleep(50 * time.Millisecond) // the webhook service still writes its bookkeeping after the POST
+		ns, err := e.s.Reopen()
+		if err != nil {
+			return fmt.Errorf("restart: %w", err)
+		}
+		e.s = ns
+		nt2 := notification.NewNotifier()
+		for _, r := range recs {
+			c11Attach(e, nt2, r)
+		}
+		e.s.Services.Notifier = nt2
+		e.s.SetForbidden(m.ForbiddenHashes())
+		e.restarts++
+		return nil
+	}
 	var progress int64 // number of Adds that have returned
 	done := make(chan struct{})
 	go func() {
 		defer close(done)
 		stored := 0
 		for i := range k.H.Subs {
+			for n := k.Restarts[i]; n > 0; n-- {
+				if err := restart(stored); err != nil {
+					restartErr = err
+					return
+				}
+			}
 			if f, ok := k.Faults[i]; ok {
 				e.faulty.arm(f.Mode, f.K)
 			} else {
@@ -619,6 +664,9 @@ wait:
 		}
 	}
 	tick.Stop()
+	if restartErr != nil {
+		return "", restartErr
+	}
 	if abandoned {
 		// the ingestion goroutine is lost inside the implementation: report what is known and stop the run
 		n := int(atomic.LoadInt64(&progress))
@@ -821,12 +869,12 @@ func runC11x(c *Ctx) error {
 	if err != nil {
 		return err
 	}
-	defer s.Close()
 	// an Add that has not returned after this long is reported as ADD-BLOCKED@i (one Add takes well under a millisecond)
 	env := &c11Env{c: c, s: s, faulty: faulty, watchdog: 5 * time.Second}
 	if c.Only != "" {
 		env.watchdog = 2 * time.Second // replay / shrinking of one case
 	}
+	defer func() { env.s.Close() }() // restarts replace the stack
 	seen := map[string]bool{}
 	do := func(k *c11Case, tag string) error {
 		line := k.Line()
@@ -858,6 +906,7 @@ func runC11x(c *Ctx) error {
 		c.Meta("c11_deliveries_held_while_ingestion_completed", strconv.Itoa(env.held))
 		c.Meta("c11_quiesce_timeouts", strconv.Itoa(env.qTimeout))
 		c.Meta("c11_baseline_bumps", strconv.Itoa(env.baseBumps))
+		c.Meta("c11_restarts", strconv.Itoa(env.restarts))
 	}
 	defer finish()
 	defer c11RealClose()
@@ -907,7 +956,7 @@ func runC11x(c *Ctx) error {
 	n := c.Pick(500, 5000)
 	for i := 0; i < n; i++ {
 		o := GenOpts{N: 2 + c.Rng.Intn(c.Pick(22, 40)), PUnknown: 0.08, PLate: 0.1, PDup: 0.12, PForbidden: 0.2,
-			ZeroWork: i%5 == 0, Deep: i%2 == 0, Extreme: i%7 == 0, Positive: i%5 != 0}
+			ZeroWork: i%5 == 0, Deep: i%2 == 0, Extreme: i%7 == 0, Positive: i%5 != 0, ShareMerkle: i%3 == 1}
 		h := GenHistory(c.Rng, o)
 		faults := map[int]c11Fault{}
 		if i%3 != 0 {
@@ -930,5 +979,22 @@ func runC11x(c *Ctx) error {
 	if err != nil {
 		return err
 	}
-	return do(k, "late-webhook-body")
+	if err := do(k, "late-webhook-body"); err != nil {
+		return err
+	}
+	// a webhook registered in an earlier run of the process keeps receiving events after a restart on the same
+	// database file: registered, restart, headers  /  registered, headers, restart, more headers (a fork included)
+	for _, l := range []string{
+		"c=H:ok,W:ok/n=9002|g=1,486604799,1,1,1231006505,2083236893;f=;X;L2,1,6,545259519",
+		"c=W:ok,H:ok,R:ok/n=9003|g=1,486604799,1,1,1231006505,2083236893;f=;L2,1,4,545259519;X;L6,5,4,545259519;20,3,541065215,1,120,1600000100,9",
+	} {
+		k, err := c11Parse(l)
+		if err != nil {
+			return err
+		}
+		if err := do(k, "webhook-after-restart"); err != nil {
+			return err
+		}
+	}
+	return nil
 }
